@@ -82,7 +82,7 @@ def parse_known():
 
 def matches(known, viol):
     for k, v in known["fields"].items():
-        if str(viol.get(k, "")) != v:
+        if str(viol.get(k, "")) not in v.split("|"):
             return False
     return True
 
